@@ -74,7 +74,7 @@ func H_C12_seq() {
 	first := vfParam("first", -1) // optionally fixes the first shape (job splitting)
 	second := vfParam("second", -1)
 	third := vfParam("third", -1)
-	alpha := vfParam("alpha", 0) // 1: free positions range over a 9-shape sub-alphabet
+	alpha := vfParam("alpha", 0) // 1: free positions range over a 9-shape sub-alphabet; 2: over 4 shapes
 	oneid := vfParam("oneid", 0) // every envelope uses stream id 1
 	lazy := vfParam("lazy", 0)   // streaming handler returns at once without reading its input
 	impl := &zzImpl{}
@@ -128,6 +128,9 @@ func H_C12_seq() {
 			// reduced alphabet for the free positions of long sequences: headerless, valid unary, unary
 			// with bad metadata, stream open, open+body, trailer, reset, empty body, open with bad timeout
 			shapes[i] = []int{0, 5, 6, 7, 9, 10, 11, 14, 16}[vfChoice("shape", 9)]
+		} else if alpha == 2 {
+			// smallest alphabet (after an expensive first envelope): valid unary, stream open, body, reset
+			shapes[i] = []int{5, 7, 9, 11}[vfChoice("shape", 4)]
 		} else {
 			shapes[i] = vfChoice("shape", zzNumShapes)
 		}
